@@ -608,11 +608,12 @@ def _canon_binop(fn, op, a, b):
 
 
 class ExprBuilder:
-    def __init__(self, prog, fn, inline=True, user_stop=False):
+    def __init__(self, prog, fn, inline=True, user_stop=False, look_through=True):
         self.prog = prog
         self.fn = fn
         self.inline = inline
         self.user_stop = user_stop  # keep user variables as named places
+        self.look_through = look_through  # look through `let`s the pinned tree does not have (is_new_let)
         self.memo = {}
 
     def operand(self, o, depth=0, stack=()):
@@ -706,14 +707,14 @@ class ExprBuilder:
             return self.memo[key]
         if local in stack or depth > MAX_DEPTH:
             return ("cycle", local)
-        if self.user_stop and fn.locals[local]["user"] and local != 0 and not fn.is_desugar_binding(local) and not fn.is_new_let(local):
+        if self.user_stop and fn.locals[local]["user"] and local != 0 and not fn.is_desugar_binding(local) and not (self.look_through and fn.is_new_let(local)):
             r = ("place", place_to_str(fn, local, []), fn.locals[local]["ty"])
             self.memo[key] = r
             return r
         ds = fn.defs(local)
         full = [d for d in ds if d[0] in ("assign", "call", "yield", "arg")]
         partial = [d for d in ds if d[0] == "partial"]
-        user = fn.locals[local]["user"] and not fn.is_new_let(local)
+        user = fn.locals[local]["user"] and not (self.look_through and fn.is_new_let(local))
         if local == 0 or partial or len(full) != 1:
             # multiply-defined or partially written: keep as a place, named if possible
             r = ("place", place_to_str(fn, local, []), fn.locals[local]["ty"])
